@@ -268,7 +268,9 @@ def _calculate_expectation_value(
     """
     expectation = 0
     n_counts = 0
-    for state, counts in results.items():
+    for state, n in results.items():
+        # Fixed-width integer counts could otherwise overflow or wrap around
+        counts = float(n)
         n_counts += counts
         # Adjust multiplier to account for variation in eigenvalues
         multiplier = 1
